@@ -122,4 +122,16 @@ PROPS = {
         "assumptions": ["cost along the iterates is re-evaluated by the monitor with the same residual functor (double); minimisers from long-double normal "
                         "equations / the generating transform", "verdict covers only the executions sampled"],
     },
+    "C08": {
+        "units": [{"name": "c08", "src": "harness/c08.cpp", "flavor": "asan", "shards": {"quick": 12, "thorough": 16}}],
+        "rule": "cases = evaluation points of a function family with matrix-level oracles (group products SO3/SE2, log of SE3 products, SE3 action, "
+                "3-argument rminus, sums over std::vector<SO3> of size 1..4, Bundle argument, scalar*vector, random quadratic maps R^n->R^m static/dynamic, "
+                "half squared log norm) x argument kinds (const / non-const refs) x all index subsets (incl. unsorted) x K in {0,1,2}; plus a "
+                "callable with jacobian/hessian members returning random matrices (Analytic/Default verbatim, call counts). distinct = distinct points",
+        "floors": {"min_evaluations": {"quick": 5000, "thorough": 100000},
+                   "cells": [r"rminus3_SO3\.subset\{2,0\}", r"vector_of_SO3\.K2\.hessian", r"verbatim\.analytic\.K2\.called_once", r"product_SO3\.K1\.args_restored\|mutable_args",
+                             r"polynomial_map\.K2\.hessian\|dynamic"]},
+        "assumptions": ["exact derivatives = 4th-order central differences (h = 1e-3) in long double of the same function re-expressed on the documented matrix groups",
+                        "verdict covers only the executions sampled"],
+    },
 }
